@@ -23,6 +23,7 @@ from _griffe.docstrings.models import (
     DocstringSectionText,
 )
 from _griffe.docstrings.utils import docstring_warning
+from _griffe.exceptions import AliasResolutionError, CyclicAliasError
 
 if TYPE_CHECKING:
     from _griffe.expressions import Expr
@@ -147,7 +148,8 @@ def _read_parameter(
         return parsed_directive.next_index
 
     if warn_unknown_params:
-        with suppress(AttributeError):  # For Parameters sections in objects without parameters.
+        # For Parameters sections in objects without parameters.
+        with suppress(AttributeError, AliasResolutionError, CyclicAliasError):
             params = docstring.parent.parameters  # type: ignore[union-attr]
             if name not in params:
                 message = f"Parameter '{name}' does not appear in the function signature"
@@ -173,7 +175,7 @@ def _read_parameter(
 def _determine_param_default(docstring: Docstring, name: str) -> str | None:
     try:
         return docstring.parent.parameters[name.lstrip()].default  # type: ignore[union-attr]
-    except (AttributeError, KeyError):
+    except (AttributeError, KeyError, AliasResolutionError, CyclicAliasError):
         return None
 
 
@@ -203,7 +205,7 @@ def _determine_param_annotation(
     if annotation is None:
         try:
             annotation = docstring.parent.parameters[name.lstrip()].annotation  # type: ignore[union-attr]
-        except (AttributeError, KeyError):
+        except (AttributeError, KeyError, AliasResolutionError, CyclicAliasError):
             docstring_warning(docstring, 0, f"No matching parameter for '{name}'")
 
     return annotation
@@ -264,7 +266,7 @@ def _read_attribute(
         annotation = parsed_attribute_type
     else:
         # try to use the annotation from the parent
-        with suppress(AttributeError, KeyError, TypeError, ValueError):
+        with suppress(AttributeError, KeyError, TypeError, ValueError, AliasResolutionError, CyclicAliasError):
             # Use subscript syntax to fetch annotation from inherited members too.
             annotation = docstring.parent[name].annotation  # type: ignore[index]
     if name in parsed_values.attributes:
